@@ -458,8 +458,12 @@ class Interp:
         from .models import DictV
         items = []
         for k, v in zip(node.keys, node.values):
-            if k is None:
-                self.unsupported(node, "dict unpacking")
+            if k is None:           # {**other}: later entries override earlier ones (lookups scan from the end)
+                src = self.eval(v)
+                if not isinstance(src, DictV):
+                    self.unsupported(node, "dict unpacking of a non-dict value")
+                items.extend(src.items)
+                continue
             items.append((self.eval(k), self.eval(v)))
         return DictV(items)
 
